@@ -144,29 +144,32 @@ def flooredStakeBurn (p : Pip22) (stake : Int) : Option Int :=
 /-- `NewIntFromBigInt` range check applied by `TruncateInt`. -/
 def toBigInt (x : Int) : Option Int := if Int256.inRange x then some x else none
 
-/-- Everything after the flooring, shared verbatim by reward and burn:
-`bin := floored.Quo(floor); weight := bin.ToDec().FracPow(exp, 100).Quo(wm);
+/-- Everything after the bin number, shared verbatim by reward and burn:
+`weight := bin.ToDec().FracPow(exp, 100).Quo(wm);
 coins := multiplier.ToDec().Mul(count.ToDec()).Mul(weight).TruncateInt()`. -/
+def coinsOfBin (R : Int → Out) (p : Pip22) (bin multiplier count : Int) : Out :=
+  match fracPowR R (ofInt bin) p.exponent pip22Den with
+  | .timeout => .timeout
+  | .err => .err
+  | .val fp =>
+    match quo fp p.wm with
+    | none => .err
+    | some weight =>
+      match mul (ofInt multiplier) (ofInt count) with
+      | none => .err
+      | some mr =>
+        match mul mr weight with
+        | none => .err
+        | some cd =>
+          match toBigInt (truncateInt cd) with
+          | none => .err
+          | some c => .val c
+
+/-- `bin := flooredStake.Quo(floor)` followed by `coinsOfBin`. -/
 def weightedCoinsR (R : Int → Out) (p : Pip22) (floored multiplier count : Int) : Out :=
   match Int256.quo floored p.floor with
   | none => .err
-  | some bin =>
-    match fracPowR R (ofInt bin) p.exponent pip22Den with
-    | .timeout => .timeout
-    | .err => .err
-    | .val fp =>
-      match quo fp p.wm with
-      | none => .err
-      | some weight =>
-        match mul (ofInt multiplier) (ofInt count) with
-        | none => .err
-        | some mr =>
-          match mul mr weight with
-          | none => .err
-          | some cd =>
-            match toBigInt (truncateInt cd) with
-            | none => .err
-            | some c => .val c
+  | some bin => coinsOfBin R p bin multiplier count
 
 /-- `calculateRewardRewardPip22` over a root oracle. -/
 def calculateRewardR (R : Int → Out) (p : Pip22) (relays stake multiplier : Int) : Out :=
